@@ -96,8 +96,8 @@ def generate(repo, out_dir):
         raise AnalysisError("driver produced no facts for crates: %s" % missing)
 
 
-KEEP_ENTRIES = 48
-MIN_AGE_S = 3 * 3600
+KEEP_ENTRIES = 16
+MIN_AGE_S = 15 * 60
 
 
 def _prune_cache(keep=()):
